@@ -75,6 +75,7 @@ def run(chk, F):
     chk.guard("prettify-data", "Number::prettify", lambda: prettify_data(chk, F))
     chk.guard("prettify-arithmetic", "Number::prettify", lambda: prettify_arith(chk, F))
     chk.guard("parts-provenance", "to_parts_digits/show", lambda: provenance(chk, F))
+    chk.guard("parts-provenance", "NumberParts constructions", lambda: same_number(chk, F))
     chk.guard("factor-exact", "eval_unit_name", lambda: factor_exact(chk, F))
     chk.guard("decompose", "fast_decompose", lambda: decompose(chk, F))
     chk.guard("merge-closures", "btree_merge callers", lambda: merges(chk, F))
@@ -223,6 +224,97 @@ def provenance(chk, F):
     chk.decide(ok, "parts-provenance", sk, "unit-from-target-name-map", sh.where(i, j), "the printed unit is the target's own name map", "unit/raw_unit are %s" % {k: src.get(k, "")[:80] for k in ("unit", "raw_unit")})
     ok = "numeric_value(arg2" in src.get("exact_value", "") and "numeric_value(arg2" in src.get("approx_value", "") and "arg2" in src.get("raw_value", "")
     chk.decide(ok, "parts-provenance", sk, "numeral-from-raw-quotient", sh.where(i, j), "numeral and raw value are those of the raw quotient", "exact/approx/raw value are not taken from `raw`")
+
+
+def same_number(chk, F):
+    """Every hand-written construction of a NumberParts that carries a numeral (exact_value / approx_value) and a unit
+    (unit / raw_unit) must take both from the same number: a numeral computed by `numeric_value(X)` goes with the unit
+    of that X, and a unit copied from `X.to_parts*(..)` (which prettifies: the value is rescaled to an SI prefix) goes
+    only with the numeral of the same to_parts call."""
+    import re
+    n = 0
+    for fn in F.by_crate[CORE]:
+        if fn.raw.get("from_expansion") or k1gen(fn):
+            continue
+        for i, j, st in fn.stmts():
+            rv = st.get("rv", {})
+            if st["k"] != "assign" or rv.get("k") != "agg" or not rv.get("adt", "").endswith("number_parts::NumberParts"):
+                continue
+            fields = dict(zip(rv["fields"], rv["ops"]))
+
+            def sources(op):
+                """access paths of an operand, looking through one level of multi-definition locals"""
+                ap = fn.apath(op)
+                if ap[0][0] == "local" and not ap[1]:
+                    out = []
+                    for d in fn.defs().get(ap[0][1], []):
+                        if d[0] == "stmt":
+                            r = d[3]
+                            if r.get("k") == "agg":
+                                out += [fn.apath(o) for o in r["ops"]]
+                            elif "a" in r:
+                                out.append(fn.apath(r["a"]))
+                        else:
+                            out.append(fn.apath_place(d[2]["dest"]))
+                    return out or [ap]
+                return [ap]
+
+            def ident(ap):
+                """('nv', key of X) for numeric_value(X..) | ('parts', call block) for to_parts*(X..) | ('unit-of', key) | None"""
+                txt = ap_str(ap)
+                if "Default>::default()" in txt and "numeric_value" not in txt and "to_parts" not in txt:
+                    return ("unset",)
+                # innermost-first search of the calls mentioned
+                def walk(a):
+                    r = a[0]
+                    if r[0] == "call":
+                        nm = r[1]
+                        if nm.endswith("Number::numeric_value"):
+                            return ("num", ap_str(r[2][0]))
+                        if re.search(r"Number::to_parts(_digits|_simple)?$", nm):
+                            return ("parts", r[3])
+                        if nm.endswith("Number::unit_to_string") or nm.endswith("Clone>::clone") or nm.endswith("Option::Some"):
+                            for x in r[2]:
+                                w = walk(x)
+                                if w:
+                                    return w
+                        for x in r[2]:
+                            w = walk(x)
+                            if w:
+                                return w
+                    if r[0] == "agg":
+                        for x in r[2]:
+                            w = walk(x)
+                            if w:
+                                return w
+                    if a[1] and a[1][-1] == "unit":
+                        return ("num", ap_str((a[0], a[1][:-1])))
+                    return None
+                return walk(ap)
+            nums = [ident(a) for k in ("exact_value", "approx_value") if k in fields for a in sources(fields[k])]
+            units = [ident(a) for k in ("unit", "raw_unit") if k in fields for a in sources(fields[k])]
+            nums = set(x for x in nums if x and x != ("unset",))
+            units = set(x for x in units if x and x != ("unset",))
+            if not nums or not units:
+                continue
+            n += 1
+            ok = nums == units or (len(nums) == 1 and nums <= units and len(units) == 1)
+            chk.decide(ok, "parts-provenance", "rink_core::" + k1norm(fn.path), "numeral-and-unit-of-the-same-number", fn.where(i, j),
+                       "numeral and unit are taken from the same number (%s)" % sorted(nums),
+                       "the numeral comes from %s but the unit shown comes from %s: the printed numeral x unit is not the quantity "
+                       "(to_parts prettifies - it rescales the value to an SI prefix - so its unit only fits its own numeral)" % (sorted(nums), sorted(units)))
+    if n < 1:
+        chk.anchor_lost("parts-provenance", "NumberParts", "no NumberParts construction carrying both a numeral and a unit was found")
+
+
+def k1gen(fn):
+    import k1
+    return k1.is_generated(fn, fn.loc)
+
+
+def k1norm(p):
+    import k1
+    return k1.normfn(p)
 
 
 def factor_exact(chk, F):
